@@ -82,10 +82,28 @@ class VDatetime:
     min = datetime.min
     max = datetime.max
 
+    last = None
+
     @classmethod
     def now(cls, tz=None):
+        """t0 + virtual time of the running VLoop, bumped by 1 us where needed to stay strictly increasing"""
         cls.n += 1
-        return cls.t0 + timedelta(microseconds=cls.n)
+        vt = 0.0
+        try:
+            import asyncio
+            loop = asyncio.get_running_loop()
+            vt = loop.now() if hasattr(loop, 'now') else 0.0
+        except RuntimeError:
+            pass
+        ts = cls.t0 + timedelta(seconds=round(vt, 6))
+        if cls.last is not None and ts <= cls.last:
+            ts = cls.last + timedelta(microseconds=1)
+        cls.last = ts
+        return ts
+
+    @classmethod
+    def vtime_of(cls, dt):
+        return None if dt is None else (dt - cls.t0).total_seconds()
 
     @classmethod
     def fromisoformat(cls, s):
@@ -105,6 +123,7 @@ def reset_globals(bus_order=None, keep_semaphores=False):
     H._active_retry_operations = 0
     H._last_overload_check = 0.0
     VDatetime.n = 0
+    VDatetime.last = None
 
 
 def set_bus_order(order):
